@@ -76,6 +76,8 @@ class Library:
                 f.update(self.vecit(n, ct, e))
             elif ct.startswith('uptr_'):
                 f.update(self.uptr(n, ct, e))
+            if ty.kinds.get(ct) == 'handle' and ct != 'str_t':
+                f[n + '__ctor0'] = 'static inline %s %s__ctor0(void) { return (%s)0; }' % (ct, n, ct)
         f.update(self.chrono())
         f.update(self.misc())
         f.update(getattr(self.u, 'struct_funcs', {}))
@@ -252,6 +254,10 @@ class Library:
 
     def misc(self):
         f = {}
+        f['str_t__ctor0'] = 'static inline str_t str_t__ctor0(void) { return STR_EMPTY; }'
+        f['str_t__empty'] = 'static inline _Bool str_t__empty(str_t s) { return s == STR_EMPTY; }'
+        f['str_t__op_eq'] = 'static inline _Bool str_t__op_eq(str_t a, str_t b) { return a == b; }'
+        f['str_t__op_ne'] = 'static inline _Bool str_t__op_ne(str_t a, str_t b) { return a != b; }'
         for t in ('int', 'int64_t', 'uint64_t', 'uint32_t', 'double', 'float'):
             f['ext__min__%s_%s' % (t, t)] = 'static inline %s ext__min__%s_%s(%s a, %s b) { return (b < a) ? b : a; }' % (t, t, t, t, t)
             f['ext__max__%s_%s' % (t, t)] = 'static inline %s ext__max__%s_%s(%s a, %s b) { return (a < b) ? b : a; }' % (t, t, t, t, t)
